@@ -243,9 +243,13 @@ func (g *genCtx) fillLinks(root *Node) {
 	var all [][]string
 	var dirs [][]string
 	var links [][]string
+	var files [][]string
 	walkNodes(root, nil, func(rel []string, n *Node) {
 		if len(rel) > 0 {
 			all = append(all, rel)
+		}
+		if n.Kind == "f" {
+			files = append(files, rel)
 		}
 		if n.Kind == "d" {
 			dirs = append(dirs, rel)
@@ -287,7 +291,14 @@ func (g *genCtx) fillLinks(root *Node) {
 			t = common.Pick(r, namePool)
 		}
 		if g.badLink && r.Chance(1, 2) {
-			switch r.Intn(3) {
+			switch r.Intn(5) {
+			case 3: // passes through a regular file
+				if len(files) > 0 {
+					f := common.Pick(r, files)
+					t = strings.Repeat("../", depth) + strings.Join(f, "/") + "/" + common.Pick(r, []string{"x", "x/y", "a/b/c"})
+				}
+			case 4: // passes through itself
+				t = strings.Repeat("../", depth) + strings.Join(rel, "/") + "/" + common.Pick(r, []string{"a", "b/c"})
 			case 0: // climbs out of the directory
 				t = strings.Repeat("../", depth+1+r.Intn(2)) + "x"
 			case 1: // passes through another link
@@ -584,12 +595,17 @@ func nameComps(name string) string {
 // ---------- independent ground truth ----------
 
 // benign: every symlink is relative, stays inside the directory lexically and does
-// not pass through another symlink of the tree (an independent re-statement, not the model).
+// not pass through another symlink of the tree, nor through a regular file other than as
+// the last directory component (an independent re-statement, not the model).
 func benign(root *Node) bool {
 	linkAt := map[string]bool{}
+	fileAt := map[string]bool{}
 	walkNodes(root, nil, func(rel []string, n *Node) {
 		if n.Kind == "l" {
 			linkAt[strings.Join(rel, "\x00")] = true
+		}
+		if n.Kind == "f" {
+			fileAt[strings.Join(rel, "\x00")] = true
 		}
 	})
 	ok := true
@@ -618,6 +634,9 @@ func benign(root *Node) bool {
 		}
 		for i := 1; i < len(stack); i++ {
 			if linkAt[strings.Join(stack[:i], "\x00")] {
+				ok = false
+			}
+			if i < len(stack)-1 && fileAt[strings.Join(stack[:i], "\x00")] {
 				ok = false
 			}
 		}
@@ -686,13 +705,14 @@ func errClass(err error) string {
 	s := err.Error()
 	switch {
 	case strings.Contains(s, "no symbolic link allowed"):
-		return "ERR symlinkdir"
+		return "ERR reject"
 	case strings.Contains(s, "is outside of"):
 		return "ERR outside"
 	case strings.Contains(s, "content digest mismatch"), strings.Contains(s, "mismatch"):
 		return "ERR digest"
 	}
-	return "ERR other:" + strings.ReplaceAll(s, " ", "_")
+	// ELOOP / ENOTDIR from the Lstat walk of resolveRelToBase and anything else
+	return "ERR reject:" + strings.ReplaceAll(s, " ", "_")
 }
 
 type tarEnt struct {
